@@ -1,6 +1,6 @@
 """C05 Every instruction word executes with the specified semantics."""
 import astq
-from rules import decode
+from rules import decode, jit, jitcross, rv64
 
 LEVEL = 'other'
 TECHNIQUE = 'exhaustive path enumeration of the decoder against the specification tables + known-bits abstract interpretation of FP bit-pattern constructors'
@@ -24,3 +24,11 @@ def run(ctx, R):
     decode.rule_cbr(ctx, R, F)
     decode.rule_cfround(ctx, R, F)
     decode.rule_fpbits(ctx, R, F)
+    jit.rule_tab_opc(ctx, R, 'x86', F)
+    jit.rule_tab_opc(ctx, R, 'a64', F)
+    jit.rule_tab_opc(ctx, R, 'rv64', F)
+    jit.rule_jitmask_x86(ctx, R)
+    jitcross.rule_jitmask_a64(ctx, R, F)
+    rv64.rule_jitmask(ctx, R, F)
+    jitcross.rule_immneg(ctx, R, 'a64')
+    jitcross.rule_immneg(ctx, R, 'rv64')
